@@ -1,3 +1,34 @@
+/-
+  C06 (fold) -- the general (nested) case of include merging: `C06_eq_fold_statement` of Props/C06.lean decided.
+
+  VERDICT: `C06_eq_fold_statement` is FALSE in the model (`C06_eq_fold_statement_false`).  Three independent reasons,
+  each with a concrete file system evaluated in the kernel:
+    * `fsKinds`     a key that is a dict in the including file, a NON-dict in the file it includes and a dict again in
+                    the file that one includes: the reader merges bottom-up (`b` into `a`, the result into `main`), the
+                    non-dict in the middle shields the outer dict from the inner one; the left fold over the preorder
+                    merges the two dicts.  First-wins merge is not associative across a change of kind
+                    (`mergeD_assoc_needs_kinds`).  This is behaviour of the library (replayed on the code).
+    * `fsSelf`      a self-reference placeholder `k $k` in an include: `_recursive_merge` recognises it with the
+                    expression table of the receiving dict (`temp`); the statement folds with the table of the including
+                    file only.  An artefact of the statement.
+    * `fsComments`  the same comment text inside a dict-valued key of two files (flat graph already): `_clean`, run by
+                    `SDict.merge` at every dict level, deletes the second placeholder entry; the bare fold keeps it, and
+                    `lookup k` compares whole sub-dicts.  An artefact of the statement.
+
+  CORRECTED THEOREM (`C06_eq_fold_kind_consistent`, general form `C06_eq_fold_inv`, end-to-end `C06_eq_fold_checked`):
+  under the decidable hypothesis `kindConsistent parent incs` (unique keys; no self-reference placeholder among the
+  ordinary top-level entries; every key path is a dict in all files or a non-dict in all files) the data of the result
+  equals the fold of the statement up to placeholder entries — `stripEs r.data = stripEs (fold)`, as ordered dicts —
+  and, if moreover no file has a placeholder below its top level (`nestedPhFree`), the conclusion of the statement
+  holds verbatim.  For every fuel and chain, cycles and diamonds included; the closure is shown to succeed with the same
+  counter whenever the merge does, without any hypothesis.
+
+  Layout: 1 vocabulary (`stripV/stripEs`, `confV/confEs`), 2 `strip` lemmas, 3 `_clean` changes placeholder entries only
+  (`clean_strip`), 4 `_recursive_merge` commutes with `strip` (`strip_mergeD`, `merge_strip`), 5 merge algebra
+  (`entries_ext`, `confEs_mergeD`, `mergeD_assoc`, `merge_foldl`), 6 self-reference decidably (`safeEntry`,
+  `selfRef_of_safe`), 7 the invariant `Inv` and `Inv.merge`, 8 the induction (`step_ok`, `fold_ok`, `recOK`),
+  9 the theorems, 10 witnesses and non-vacuity.
+-/
 import DictIO.Props.C06
 import DictIO.Props.C07
 
@@ -1130,7 +1161,7 @@ def poolOf (files : List SD) : Pool := files.flatMap fun f => f.exprs.map fun p 
 def schemaOf (files : List SD) : Entries := (files.map S).foldl (mergeD false []) []
 
 /-- **kind-consistent** (decidable): in the including file and in every file of its closure
-    * keys are unique in every dict (true of every Python dict; the association-list model admits repetitions),
+    * keys are unique in every dict (true of every Python dict; the association-list model allows repetitions),
     * no ordinary top-level entry is a self-reference placeholder `k $k` — neither as it stands nor with the text of
       any expression of these files that carries the id of the entry's `EXPRESSION%06d`,
     * every key path (placeholder entries aside) leads to a dict in all the files that have it, or to a non-dict in all
@@ -1200,5 +1231,150 @@ theorem C06_eq_fold_nondict (fs : FS) (comments : Bool) (parent : SD) (dir : Com
       rw [stripV_nondict hv, stripV_nondict hw] at hxy
       rw [hxy]
   exact ⟨key _ _ this, key _ _ this.symm⟩
+
+/-! ## 10. `C06_eq_fold_statement` is false in the model; each added hypothesis is needed; non-vacuity -/
+
+/-- the statement at one input, as a computation: if the include merge succeeds, does the closure succeed and do the two
+    sides agree under the key `k` ? -/
+def stmtCheck (fs : FS) (comments : Bool) (parent : SD) (dir : Comps) (c : Counter) (k : Key) : Bool :=
+  match mergeIncludesRec fs comments (fs.length + 1) [] parent dir c with
+  | .error _ => true
+  | .ok (r, _) =>
+    match closure fs comments (fs.length + 1) [] parent dir c with
+    | .error _ => false
+    | .ok (incs, _) => decide (lookup k r.data = lookup k (foldData parent.exprs parent.data incs))
+
+theorem stmtCheck_of_statement (h : C06_eq_fold_statement) (fs : FS) (comments : Bool) (parent : SD) (dir : Comps) (c : Counter)
+    (k : Key) (hk : isPhKey k = false) : stmtCheck fs comments parent dir c k = true := by
+  unfold stmtCheck
+  cases hm : mergeIncludesRec fs comments (fs.length + 1) [] parent dir c with
+  | error x => rfl
+  | ok rc =>
+    obtain ⟨incs, hc, hl⟩ := h fs comments parent dir c rc.1 rc.2 hm
+    simp only [hc]
+    exact decide_eq_true (hl k hk)
+
+/-- the same for a file of the file system: parse it (fresh counter), then merge its includes -/
+def stmtCheckFile (fs : FS) (comments : Bool) (root : Comps) (k : Key) : Bool :=
+  match parseFile fs comments none root with
+  | .error _ => true
+  | .ok (p, c) => stmtCheck fs comments p root.dropLast c k
+
+theorem stmtCheckFile_of_statement (h : C06_eq_fold_statement) (fs : FS) (comments : Bool) (root : Comps)
+    (k : Key) (hk : isPhKey k = false) : stmtCheckFile fs comments root k = true := by
+  unfold stmtCheckFile
+  split
+  · rfl
+  · exact stmtCheck_of_statement h _ _ _ _ _ k hk
+
+section Witnesses
+
+private def sk (s : String) : Key := .str s.toList
+private def iv (z : Int) : Val := .leaf (.int z)
+private def sv (s : String) : Val := .leaf (.str s.toList)
+private def pth (l : List String) : Comps := l.map String.toList
+
+/-- **the witness: a key that is a dict, a non-dict, a dict along a chain of nested includes.**
+    `/d/main.json = {"#include": "a.json", "k": {"x": 1}}`, `/d/a.json = {"k": 5, "#include": "b.json"}`,
+    `/d/b.json = {"k": {"y": 2}}`.
+    The reader merges `b` into `a` first (`k` stays `5`), then the result into `main`: `k = {x: 1}`.
+    The fold `main ← a ← b` keeps `{x: 1}` against `5` and then merges `{y: 2}` into it: `k = {x: 1, y: 2}`.
+    (Native files `main: "#include 'a'\nk { x 1; }\n"`, `a: "#include 'b'\nk 5;\n"`, `b: "k { y 2; }\n"` behave alike.) -/
+def fsKinds : FS :=
+  [ (pth ["d", "main.json"], .json [(sk "#include", sv "a.json"), (sk "k", .dict [(sk "x", iv 1)])]),
+    (pth ["d", "a.json"], .json [(sk "k", iv 5), (sk "#include", sv "b.json")]),
+    (pth ["d", "b.json"], .json [(sk "k", .dict [(sk "y", iv 2)])]) ]
+
+theorem fsKinds_fails : stmtCheckFile fsKinds false (pth ["d", "main.json"]) (sk "k") = false := by decide +kernel
+
+/-- **`C06_eq_fold_statement` is false in the model.** -/
+theorem C06_eq_fold_statement_false : ¬ C06_eq_fold_statement := by
+  intro h
+  have h1 := stmtCheckFile_of_statement h fsKinds false (pth ["d", "main.json"]) (sk "k") (by decide +kernel)
+  rw [fsKinds_fails] at h1
+  cases h1
+
+/-- **the self-reference hypothesis is needed** (two flat includes, no dict at all):
+    `/d/main.json = {"#include": "a.json", "#include 2": "b.json", "q": 0}`, `/d/a.json = {"k": "$k"}`, `/d/b.json = {"k": 1}`.
+    The reader's `temp` carries `a`'s expression table, sees that `k` is the placeholder `$k` and fills it from `b`:
+    `k = 1`.  The fold of the statement tests with the including file's table only, does not recognise the
+    placeholder, and keeps `k = EXPRESSION000002`. -/
+def fsSelf : FS :=
+  [ (pth ["d", "main.json"], .json [(sk "#include", sv "a.json"), (sk "#include 2", sv "b.json"), (sk "q", iv 0)]),
+    (pth ["d", "a.json"], .json [(sk "k", sv "$k")]),
+    (pth ["d", "b.json"], .json [(sk "k", iv 1)]) ]
+
+theorem fsSelf_fails : stmtCheckFile fsSelf false (pth ["d", "main.json"]) (sk "k") = false := by decide +kernel
+
+/-- **placeholders below the top level: equality only up to `stripEs`** (one flat include, comments read):
+    `main = "#include 'a'\nk { // c\n x 1; }\n"`, `a = "k { // c\n y 2; }\n"`.  Both dicts under `k` bring a line comment
+    with the same text; `_clean` (run by `SDict.merge` at every level) deletes the second placeholder entry, the bare
+    fold of `_recursive_merge` keeps both. -/
+def fsComments : FS :=
+  [ (pth ["d", "main"], .native "#include 'a'\nk { // c\n x 1; }\n".toList),
+    (pth ["d", "a"], .native "k { // c\n y 2; }\n".toList) ]
+
+theorem fsComments_fails : stmtCheckFile fsComments true (pth ["d", "main"]) (sk "k") = false := by decide +kernel
+
+/-! #### non-vacuity -/
+
+/-- the decidable hypotheses for a file of the file system -/
+def checkGood (fs : FS) (comments : Bool) (root : Comps) : Bool :=
+  match parseFile fs comments none root with
+  | .error _ => false
+  | .ok (p, c) =>
+    match closure fs comments (fs.length + 1) [] p root.dropLast c with
+    | .error _ => false
+    | .ok (incs, _) => kindConsistent p incs && nestedPhFree p incs
+
+/-- **C06 (fold) for a checked file system.** if `checkGood` evaluates to `true` for a file, the conclusion of
+    `C06_eq_fold_statement` holds for reading it -/
+theorem C06_eq_fold_checked (fs : FS) (comments : Bool) (root : Comps) (hg : checkGood fs comments root = true)
+    (p : SD) (c : Counter) (hp : parseFile fs comments none root = .ok (p, c)) (r : SD) (c' : Counter)
+    (h : mergeIncludesRec fs comments (fs.length + 1) [] p root.dropLast c = .ok (r, c')) :
+    ∃ incs, closure fs comments (fs.length + 1) [] p root.dropLast c = .ok (incs, c') ∧
+      ∀ k, isPhKey k = false →
+        lookup k r.data = lookup k (incs.foldl (fun d i => mergeD true p.exprs d i.data) p.data) := by
+  obtain ⟨incs, hc, hk⟩ := C06_eq_fold_kind_consistent fs comments p root.dropLast c r c' h
+  refine ⟨incs, hc, ?_⟩
+  simp only [checkGood, hp, hc, Bool.and_eq_true] at hg
+  exact (hk hg.1).2.2 hg.2
+
+/-- the example of `C06.lean` (nested include, cycle, missing file, `..`; `a.json` reached twice) satisfies the hypotheses -/
+theorem exFs_good : checkGood exFs true ["d".toList, "main.json".toList] = true := by decide +kernel
+
+/-- a graph with dict-valued keys: `main → a, sub/b`; `a → main` (cycle), `a → c`; `sub/b → ../c` (diamond), `sub/b →` a
+    missing file; `k` is a dict in all four files, with sub-keys that overlap -/
+def exFs2 : FS :=
+  [ (pth ["d", "main.json"], .json
+      [(sk "#include", sv "a.json"), (sk "#include 2", sv "sub/b.json"), (sk "x", iv 1), (sk "k", .dict [(sk "p", iv 1)])]),
+    (pth ["d", "a.json"], .json
+      [(sk "x", iv 2), (sk "y", iv 3), (sk "k", .dict [(sk "p", iv 7), (sk "q", iv 2)]),
+       (sk "#include", sv "main.json"), (sk "#include 2", sv "c.json")]),
+    (pth ["d", "sub", "b.json"], .json
+      [(sk "y", iv 4), (sk "z", iv 5), (sk "k", .dict [(sk "r", iv 3), (sk "n", .dict [(sk "u", iv 1)])]),
+       (sk "#include", sv "../c.json"), (sk "#include 2", sv "nothere.json")]),
+    (pth ["d", "c.json"], .json
+      [(sk "w", sv "$x + 1"), (sk "k", .dict [(sk "q", iv 9), (sk "s", iv 4), (sk "n", .dict [(sk "v", iv 2)])])]) ]
+
+theorem exFs2_good : checkGood exFs2 true (pth ["d", "main.json"]) = true := by decide +kernel
+
+/-- … and the merged dict under `k`: first wins, sub-dicts merged, keys in order of first appearance (the chain starts
+    empty, so the edge `a → main` re-enters `main` once and reaches `sub/b` before `a`'s second include `c`) -/
+example :
+    (match parseFile exFs2 true none (pth ["d", "main.json"]) with
+     | .ok (p, c) => (match mergeIncludesRec exFs2 true (exFs2.length + 1) [] p (pth ["d"]) c with
+       | .ok (r, _) => lookup (sk "k") r.data
+       | .error _ => none)
+     | .error _ => none) =
+    some (.dict [(sk "p", iv 1), (sk "q", iv 2), (sk "r", iv 3), (sk "n", .dict [(sk "u", iv 1), (sk "v", iv 2)]), (sk "s", iv 4)]) := by
+  decide +kernel
+
+/-- the three failing inputs violate the hypotheses, each its own -/
+example : checkGood fsKinds false (pth ["d", "main.json"]) = false := by decide +kernel
+example : checkGood fsSelf false (pth ["d", "main.json"]) = false := by decide +kernel
+example : checkGood fsComments true (pth ["d", "main"]) = false := by decide +kernel
+
+end Witnesses
 
 end DictIO.C06fold
